@@ -59,7 +59,8 @@ Min2(a, b) == IF a < b THEN a ELSE b
 Abs(a) == IF a < 0 THEN -a ELSE a
 Near(a, b, tol) == Abs(a - b) <= tol
 AScale == 4096                \* resolution of mapping amounts
-Big == 60000                  \* recorded numbers are clamped to +-Big by the harness
+Big == 60000                  \* numbers of value specs are at most this (14 units at scale 4096)
+Huge == 1000000               \* recorded values are clamped to +-Huge by the harness
 
 NoVS == [k |-> "fix", v |-> 0, m |-> 0, i0 |-> 0, i1 |-> 1, o0 |-> 0, o1 |-> 0, e |-> "lin", p |-> 1]
 NoSet == [has |-> FALSE]
@@ -142,7 +143,7 @@ LfoStep(st, e, m) ==
 LfoBad(st, e, m) ==
   LET c == st.mc[m]  l == st.lf[m]  s == LfoStep(st, e, m)  v == MV(e, m)  sc == st.sc IN
   IF s.free THEN ""
-  ELSE IF ~Near(v, s.of, Abs(s.am) + st.tol + 1) THEN "lfo_within_offset_plus_minus_amplitude"
+  ELSE IF ~Near(v, s.of, Abs(s.am) + 2 * st.tol + (IF st.tol = 0 THEN 0 ELSE 1)) THEN "lfo_within_offset_plus_minus_amplitude"
   ELSE IF ~s.exact THEN ""
   ELSE IF c.wave # "sine" THEN
          (IF Near(v, s.exp, IF s.rem = 0 THEN 0 ELSE 1) THEN "" ELSE "lfo_follows_waveform")
@@ -165,7 +166,7 @@ Probe(st, m) == st.mc[m].kind = "probe"
 ParamBad(st, e, q) ==
   LET c == st.pc[q]  o == e.pv[q] IN
   IF ~o.p THEN ""
-  ELSE IF Abs(o.v) > Big THEN "value_in_range"
+  ELSE IF Abs(o.v) > Huge THEN "value_in_range"
   ELSE IF LiveNow(st, e, c.vs.m) THEN
          (IF Near(o.v, MapRef(c.vs, MV(e, c.vs.m)), st.tol) THEN "" ELSE "parameter_follows_modulator_in_same_chunk")
   ELSE IF st.last[q].k THEN (IF o.v = st.last[q].v THEN "" ELSE "parameter_holds_last_value_after_removal")
@@ -194,7 +195,7 @@ CheckChunk(st, e) ==
   IN
   IF st.left = 0 THEN "chunk_outside_callback"
   ELSE IF e.n # Min2(st.buf, st.left) THEN "internal_chunk_size"
-  ELSE IF \E m \in Mods : Pres(e, m) /\ Abs(MV(e, m)) > Big THEN "value_in_range"
+  ELSE IF \E m \in Mods : Pres(e, m) /\ Abs(MV(e, m)) > Huge THEN "value_in_range"
   ELSE IF \E m \in Mods : st.ms[m] = "live" /\ ~Pres(e, m) THEN "live_modulator_resolves"
   ELSE IF \E m \in Mods : st.ms[m] = "gone" /\ Pres(e, m) THEN "removed_is_final"
   ELSE IF \E m \in Mods : st.ms[m] \in {"none", "failed", "queued"} /\ Pres(e, m) THEN "phantom_modulator"
